@@ -106,9 +106,18 @@ def gate_sources():
                 if depth == 0:
                     out.append(txt[i])
                 i += 1
+        depth_sec = 0
         for n, line in enumerate("".join(out).split("\n"), 1):
             if FORBIDDEN.search(line):
                 bad.append("%s: %s" % (os.path.relpath(f, VERIF), line.strip()[:120]))
+            st = line.strip()
+            # a Variable / Hypothesis / Context outside a section declares an axiom-like assumption
+            if re.match(r"(Section|Module)\s+\w+", st) and not re.match(r"Module\s+\w+\s*:=", st):
+                depth_sec += 1
+            elif re.match(r"End\s+\w+\s*\.", st):
+                depth_sec = max(0, depth_sec - 1)
+            elif depth_sec == 0 and re.match(r"(Variable|Variables|Hypothesis|Hypotheses|Context)\b", st):
+                bad.append("%s: %s (outside a section)" % (os.path.relpath(f, VERIF), st[:120]))
     return bad
 
 
